@@ -737,7 +737,7 @@ pub fn gen_cfg(r: &mut Rng) -> (String, u64, u64, u64, Option<u64>) {
     let unsolicited = r.chance(1, 2);
     let retries = *r.pick(&["none", "0", "1", "3"]);
     let ctimeout = *r.pick(&[5000u64, 1009]);
-    let stimeout = *r.pick(&[5000u64, 2003]);
+    let stimeout = *r.pick(&[5000u64, 2003, 5000, 2003, 137, 3]); // also below one second (S186)
     let rdelay = *r.pick(&[5000u64, 3001]);
     let keepalive = *r.pick(&[None, None, Some(60000u64), Some(7001)]);
     let s = format!(
